@@ -4,7 +4,7 @@ import NasdaqModel.Model.Heap
 Line protocol of the C18 heap model.
 
   heap.run <schema> (<op>*)      →  (<result>*)         one result per operation
-  heap.witness                   →  the history of Witness/C18.lean in request syntax
+  heap.witness                   →  the history of Witness/C18.lean in request syntax, printed from the Lean terms
 
   schema  ::= (schema <class>*)
   class   ::= (rec <msgid|-> <fty>*) | (fmsg h b t) | (fseg g|s <entry>*)
@@ -152,15 +152,58 @@ def runOps (S : Schema) : Heap → List Op → List Sexp
     let views := (List.range H'.insts.length).map (instSx S H')
     .list (.atom status :: .atom safe :: rd :: views) :: runOps S H' ops
 
-/-- the witness history of Witness/C18.lean (kept in sync by `Witness.C18_witness_is_driver_history`) -/
-def witnessSchema : Schema :=
-  ⟨[.binRec (some 65) [.int ⟨2, false, false⟩ none, .arr (.int ⟨1, false, false⟩) ⟨2, false, false⟩]]⟩
+/-! printers (request syntax), used to hand the witness history of Witness/C18.lean to the harness -/
 
-def witnessOps : List Op :=
-  [.new 0, .new 0, .append 0 [.fld 1] (.int 7), .new 0]
+def bitSx (b : Bool) : Sexp := .atom (if b then "1" else "0")
+def intTySx (t : IntTy) : List Sexp := [atomN t.w, bitSx t.signed, bitSx t.be]
+
+def etySx : ETy → Sexp
+  | .int t => .list (.atom "int" :: intTySx t)
+  | .recd c => .list [.atom "recd", atomN c]
+
+def ftySx : FTy → Sexp
+  | .int t d => .list (.atom "int" :: intTySx t ++ [match d with | some v => atomI v | none => .atom "-"])
+  | .arr e c => .list [.atom "arr", etySx e, .list (intTySx c)]
+  | .recd c => .list [.atom "recd", atomN c]
+
+def entrySx : XEntry → Sexp
+  | .field t .int => .list [.atom "f", atomN t, .atom "int"]
+  | .field t .str => .list [.atom "f", atomN t, .atom "str"]
+  | .group t g => .list [.atom "g", atomN t, atomN g]
+
+def classSx : ClassDef → Sexp
+  | .binRec m fs => .list (.atom "rec" :: (match m with | some v => atomN v | none => .atom "-") :: fs.map ftySx)
+  | .fixMsg h b t => .list [.atom "fmsg", atomN h, atomN b, atomN t]
+  | .fixSeg g es => .list (.atom "fseg" :: .atom (if g then "g" else "s") :: es.map entrySx)
+
+def schemaSx (S : Schema) : Sexp := .list (.atom "schema" :: S.classes.map classSx)
+
+partial def treeSx : Tree → Sexp
+  | .int i => atomI i
+  | .str s => .list (.atom "s" :: s.map atomN)
+  | .none => .atom "none"
+  | .list xs => .list (.atom "l" :: xs.map treeSx)
+  | .obj c ks ts => .list (.atom "o" :: atomN c :: (ks.zip ts).map (fun kt => Sexp.list [atomN kt.1, treeSx kt.2]))
+
+def stepSx : Step → Sexp
+  | .fld k => .list [.atom "f", atomN k]
+  | .idx i => .list [.atom "i", atomN i]
+
+def pathSx (p : List Step) : Sexp := .list (p.map stepSx)
+
+def opSx : Op → Sexp
+  | .new c => .list [.atom "new", atomN c]
+  | .read a p => .list [.atom "read", atomN a, pathSx p]
+  | .assign a p k t => .list [.atom "assign", atomN a, pathSx p, atomN k, treeSx t]
+  | .append a p t => .list [.atom "append", atomN a, pathSx p, treeSx t]
+  | .setIdx a p i t => .list [.atom "setidx", atomN a, pathSx p, atomN i, treeSx t]
+  | .encode a => .list [.atom "encode", atomN a]
+  | .mkbuf a => .list [.atom "mkbuf", atomN a]
+  | .decode c b => .list [.atom "decode", atomN c, atomN b]
+  | .scribble b => .list [.atom "scribble", atomN b]
 
 def witnessText : String :=
-  "(schema (rec 65 (int 2 0 0 -) (arr (int 1 0 0) (2 0 0)))) ((new 0) (new 0) (append 0 ((f 1)) 7) (new 0))"
+  (schemaSx witnessSchema).toStr ++ " " ++ (Sexp.list (witnessOps.map opSx)).toStr
 
 def handle (op : String) (args : List Sexp) : Option String :=
   match op, args with
